@@ -12,6 +12,7 @@ use std::sync::atomic::{AtomicBool, Ordering};
 use std::sync::{Arc, Mutex, OnceLock};
 
 static REG: OnceLock<Registry> = OnceLock::new();
+pub static LAST_PANIC_AT: Mutex<Option<String>> = Mutex::new(None);
 pub fn global_registry() -> Registry {
     REG.get_or_init(|| Arc::new(Mutex::new(Vec::new()))).clone()
 }
@@ -80,6 +81,9 @@ impl Exec {
             }
             Err(e) => {
                 ev.insert("panic".into(), json!(panic_msg(e)));
+                if let Some(at) = LAST_PANIC_AT.lock().unwrap().take() {
+                    ev.insert("panic_at".into(), json!(at));
+                }
             }
         }
         // observation of the instance(s) named by the op, after the op
@@ -345,8 +349,17 @@ impl Exec {
             }
             "test_timer" => {
                 let inst = self.gen(op, "g");
-                match inst.jitter().expect("jitter op on non-jitter").test_timer() {
-                    Ok(r) => out.push(("ok_rounds".into(), json!(r))),
+                let then_set = op.get("then_set").and_then(|v| v.as_bool()).unwrap_or(false);
+                let j = inst.jitter().expect("jitter op on non-jitter");
+                match j.test_timer() {
+                    Ok(r) => {
+                        out.push(("ok_rounds".into(), json!(r)));
+                        if then_set {
+                            // the documented idiom rng.set_rounds(rng.test_timer()?)
+                            let res = catch_unwind(AssertUnwindSafe(|| j.set_rounds(r)));
+                            out.push(("set_panic".into(), json!(res.is_err())));
+                        }
+                    }
                     Err(e) => out.push(("err".into(), json!(e))),
                 }
             }
